@@ -42,12 +42,16 @@ class LayerBuilder:
     """Builds one diagnostic layer (ECU variant or base variant) with its own document
     fragment out of real odxtools classes, and finalises it like the unit tests do."""
 
-    def __init__(self, name: str, kind: str = "ecu"):
+    def __init__(self, name: str, kind: str = "ecu", container: Optional[str] = None):
         from odxtools.nameditemlist import NamedItemList
         from odxtools.odxlink import DocType, OdxDocFragment
         self.name = name
         self.kind = kind
-        self.frags = [OdxDocFragment(name, DocType.CONTAINER)]
+        if container is None:
+            self.frags = [OdxDocFragment(name, DocType.CONTAINER)]
+        else:
+            # the fragments the ODX parser assigns to the objects of a layer
+            self.frags = [OdxDocFragment(container, DocType.CONTAINER), OdxDocFragment(name, DocType.LAYER)]
         self.n = 0
         self.dops: List[Any] = []
         self.dtc_dops: List[Any] = []
